@@ -43,7 +43,7 @@ def goodmanCorrection( stressRange, ultimateStrength, n=1.0 ):
     >>> ultimateStrength = 4.0
     >>> rst = goodmanCorrection( stressRange, ultimateStrength )
     '''
-    stressRange = np.array( stressRange )
+    stressRange = np.array( stressRange, dtype=float )
     # check stressRange
     if len( stressRange.shape ) != 1:
         raise ValueError( "Input stressRange dimension should be 1" )
@@ -121,7 +121,7 @@ def soderbergCorrection( stressRange, yieldStrength, n=1.0 ):
     >>> yieldStrength = 3.0
     >>> rst = soderbergCorrection( stressRange, yieldStrength )
     '''
-    stressRange = np.array( stressRange )
+    stressRange = np.array( stressRange, dtype=float )
     # check stressRange
     if len( stressRange.shape ) != 1:
         raise ValueError( "Input stressRange dimension should be 1" )
@@ -199,7 +199,7 @@ def gerberCorrection( stressRange, ultimateStrength, n=1.0 ):
     >>> ultimateStrength = 3.0
     >>> rst = gerberCorrection( stressRange, ultimateStrength )
     '''
-    stressRange = np.array( stressRange )
+    stressRange = np.array( stressRange, dtype=float )
     # check stressRange
     if len( stressRange.shape ) != 1:
         raise ValueError( "Input stressRange dimension should be 1" )
